@@ -9,10 +9,11 @@ import Mathlib.Tactic.Positivity
 
 `gdot`, `MemCone`, `Dom` are the list-model relation of `Model/Basic.lean` with the carrier generalised
 from `Rat` to any linearly ordered field `K`.  At `K = ℚ` they coincide with `dot`, `inCone`, `dominates`
-(`dot_eq_gdot`, `inCone_iff`, `dominates_iff`), and `Rat.cast` carries them to every other ordered field
+(`dot_eq_gdot`, `inCone_iff`, `dominates_iff`; all in namespace `VOPy.ConeOrd`), and `Rat.cast` carries them to every other ordered field
 (`memCone_cast`), in particular `ℝ`.
 -/
-namespace VOPy
+namespace VOPy.ConeOrd
+open VOPy
 set_option linter.unusedSectionVars false
 
 section generic
@@ -314,4 +315,4 @@ theorem matVec_identMat (m : Nat) (x : Vec) (hx : x.length = m) : matVec (identM
     rw [List.range_eq_range', dot_basis_row i 0 m x hx]
     simp [him]
 
-end VOPy
+end VOPy.ConeOrd
